@@ -462,9 +462,9 @@ def family_forms(m, tier):
             dict(raw_name="g_t_args", types=["TA", "TB"], args="strs"),
             dict(raw_name="ext_c_bencher", extern="C", form="bencher"),
         ]
-    placements = ["root", "mod2", "group", "group_named", "group_in_group"]
+    placements = ["root", "mod2", "group", "group_named", "group_in_group", "raw_group_named", "raw_mod"]
     if tier == "thorough":
-        placements += ["mod4", "group_options", "mod_in_group"]
+        placements += ["mod4", "group_options", "mod_in_group", "raw_group_options"]
     k = 0
     for fi, form in enumerate(forms):
         for placement in placements:
@@ -491,6 +491,12 @@ def family_forms(m, tier):
             elif placement == "group_in_group":
                 path = open_mod(m, path, indent, "outer", group={}); indent += 4; stack += 1
                 path = open_mod(m, path, indent, "inner", group={"display": "in"}); indent += 4; stack += 1
+            elif placement == "raw_group_named":
+                path = open_mod(m, path, indent, "r#type", group={"display": "raw shown"}); indent += 4; stack += 1
+            elif placement == "raw_group_options":
+                path = open_mod(m, path, indent, "r#match", group={"options": [("sample_count", "3"), ("ignore", None)]}); indent += 4; stack += 1
+            elif placement == "raw_mod":
+                path = open_mod(m, path, indent, "r#fn"); indent += 4; stack += 1
             elif placement == "mod_in_group":
                 path = open_mod(m, path, indent, "grp", group={}); indent += 4; stack += 1
                 path = open_mod(m, path, indent, "plainmod"); indent += 4; stack += 1
@@ -556,6 +562,16 @@ def family_ignore(m, tier):
     add_bench(m, g3, 12, "through_group")
     add_bench(m, g3, 12, "g_types", types=["TA", "TB"])
     close_mod(m, 8)
+    # nodes below an ignored group that carry options other than `ignore`
+    add_bench(m, g, 8, "inherited_tuned", options=[("sample_count", "1")])
+    add_bench(m, g, 8, "inherited_tuned_args", args="strs", options=[("sample_size", "1")])
+    g5 = open_mod(m, g, 8, "tuned_group", group={"options": [("sample_size", "1")]})
+    add_bench(m, g5, 12, "inherits_through_tuned_group")
+    add_bench(m, g5, 12, "own_false", options=[("ignore", "false"), ("sample_count", "2")])
+    g6 = open_mod(m, g5, 12, "named_inner", group={"display": "named inner"})
+    add_bench(m, g6, 16, "deep")
+    close_mod(m, 12)
+    close_mod(m, 8)
     g4 = open_mod(m, g, 8, "inner_unignored", group={"options": [("ignore", "false")]})
     add_bench(m, g4, 12, "reenabled")
     add_bench(m, g4, 12, "ignored_again", ignore_attr=True)
@@ -563,6 +579,15 @@ def family_ignore(m, tier):
     close_mod(m, 4)
     ga = open_mod(m, path, 4, "ig_attr", group={"ignore_attr": True, "display": "ig attr"})
     add_bench(m, ga, 8, "inherited")
+    close_mod(m, 4)
+    # a group that sets other options but not `ignore`, inside and outside ignored groups
+    gb = open_mod(m, path, 4, "tuned_not_ignored", group={"options": [("sample_count", "1")]})
+    add_bench(m, gb, 8, "runs")
+    add_bench(m, gb, 8, "own_ignore", options=[("ignore", None)])
+    gc = open_mod(m, gb, 8, "ignored_inner", group={"options": [("ignore", None), ("sample_size", "1")]})
+    add_bench(m, gc, 12, "inherits")
+    add_bench(m, gc, 12, "tuned_inherits", options=[("sample_count", "2")])
+    close_mod(m, 8)
     close_mod(m, 4)
     close_mod(m, 0)
 
